@@ -91,7 +91,7 @@ EVENTS = ["GO", "SPAWN", "SPAWN2", "DSEND", "DSEND2", "FIN", "FIN", "BAD", "STOP
 
 def plan(tier):
     q = tier == "quick"
-    out = [{"name": "main", "examples": 2500 if q else 200000}]
+    out = [{"name": "main", "examples": 8000 if q else 200000}]
     for f in findings.open_for(PROPERTY):
         if f.exclude_profile:
             out.append({"name": "probe:" + f.id, "examples": 400 if q else 4000, "shards": 4})
